@@ -70,6 +70,7 @@ class Harness(cm.BaseB):
             for m in [50, 4.8, 33.3, 950, 0.5, 7]:
                 out.append({"kind": "tr", "dev": dev, "m": m})
         out.append({"kind": "rd"})
+        out.append({"kind": "trseq"})
         return out
 
     def cases(self, chunk):
@@ -88,6 +89,15 @@ class Harness(cm.BaseB):
             for v in sorted(x for x in vs if x >= 0 and x <= 40 * m):
                 for asplit in (True, False):
                     yield {"kind": "tr", "dev": chunk["dev"], "v": fhex(v), "m": m, "auto_split": asplit}
+        elif chunk["kind"] == "trseq":
+            # hidden state between worklists: first an integer-friendly max_volume, then a non-integer one that
+            # needs the same number of steps for the same volume (and the reverse order)
+            for m1, m2 in ((600, 500.5), (500.5, 600), (50, 33.5), (34, 33.5), (950, 949.5), (5, 4.8), (200, 199.99)):
+                for k in (2, 3, 5):
+                    for d in (-1, -0.5, 0.25, 1):
+                        v = k * min(m1, m2) + d
+                        if v > 0:
+                            yield {"kind": "trseq", "m1": m1, "m2": m2, "v": fhex(v)}
         else:
             for m in (50, 950, 4.8, 1.0, 0.3):
                 for v in (0.1, 0.25, 1, 7.5, 10, 25, 50, 50.5, 100, 400, 950, 1200, 0.3, 4.8, 2.4):
@@ -170,6 +180,14 @@ class Harness(cm.BaseB):
         if exc is not None:
             V.append(("C06/fitting-step-refused", f"auto_split off: transfer of {v!r} <= max_volume={m} raised {name}"))
         return f"tr:nosplit:{name}", None, V
+
+    def one_trseq(self, case):
+        cm.clear_caches()
+        out = []
+        for dev, m in (("EvoWorklist", case["m1"]), ("FluentWorklist", case["m2"]), ("EvoWorklist", case["m2"])):
+            o, key, V = self.one_tr({"kind": "tr", "dev": dev, "v": case["v"], "m": m, "auto_split": True})
+            out += [(c + "/order-dependent", f"after the same volume on a worklist with max_volume={case['m1']}: {d}") for c, d in V]
+        return "trseq", f"trseq{case}", out
 
     # -------------------------------------------------------------- reagent distribution
     def one_rd(self, case):
